@@ -108,10 +108,18 @@ pub fn run(ctx: &Ctx) -> Report {
         report.hit(&format!("global-option:{}", global.unwrap()));
       }
       args.push("completions".into());
-      args.extend(sargs.iter().cloned());
+      // (the directory option before the shell, or after it: the order of the two does not matter)
+      let dir_first = fnv_str(&format!("{sargs:?}{pre}{dir_flag:?}")) % 2 == 0;
+      if !dir_first {
+        args.extend(sargs.iter().cloned());
+      }
       if let Some(d) = dir_flag {
         args.push(d.into());
         args.push("out".into());
+        report.hit(if dir_first { "order:dir-then-shell" } else { "order:shell-then-dir" });
+      }
+      if dir_first {
+        args.extend(sargs.iter().cloned());
       }
       let before = snapshot(&sb.root);
       let out = Cmd::args_owned(&ctx.imdl, args.clone()).cwd(&sb.root).run();
